@@ -103,6 +103,11 @@ CopyGroupClauses ==
        /\ \E i \in 1..Len(C.copy_groups[g]) : ~SameContent(C.copy_groups[g][i][1], C.copy_groups[g][i][2])
   THEN {"CopyGroupIncomplete"} ELSE {}
 
+(* the law inside runs: whenever a watched target changed, the projection judged the relation between its
+   previous value, the online network and its new value (float32 recomputation of tau*online + (1-tau)*target;
+   tau = 1 for hard copies); anything but "polyak" is a violation of the update rule at that call site *)
+LawClauses == IF \E i \in 1..Len(E.rel) : E.rel[i][2] # "polyak" THEN {"TargetLawInRun"} ELSE {}
+
 (* clauses that apply to every event: frame conditions on component versions *)
 Common ==
   (IF Changed \cap SetOf(C.frozen) # {} THEN {"FrozenComponentChanged"} ELSE {})
@@ -110,7 +115,7 @@ Common ==
         THEN {"NoLearnBeforeWarmup"} ELSE {})
   \cup (IF Changed # {} /\ E.ev = "add" THEN {"StoringChangesNothing"} ELSE {})
   \cup (IF Changed # {} /\ E.ev = "step" /\ prevEv \in {"explore", "policy"} THEN {"ActingChangesNothing"} ELSE {})
-  \cup SegClose \cup OutOfSegment \cup HardCopyClauses \cup CopyGroupClauses
+  \cup SegClose \cup OutOfSegment \cup HardCopyClauses \cup CopyGroupClauses \cup LawClauses
 
 Bump == /\ l' = l + 1 /\ prevEv' = E.ev /\ UNCHANGED tid
         /\ updates' = IF Changed \cap SetOf(C.trained) # {} THEN updates + 1 ELSE updates
